@@ -1,6 +1,6 @@
 (* C07 - reordering commands yield the documented order and preserve each patch's change.
-   Only the property theorems; proofs in Proofs/ReorderProofs.v. *)
-From StgV Require Import Model.StackSpec Proofs.ReorderProofs.
+   Only the property theorems; proofs in Proofs/ReorderProofs.v and Proofs/MergedRefuted.v. *)
+From StgV Require Import Model.StackSpec Model.IdentSpec Proofs.ReorderProofs Proofs.MergedRefuted.
 
 (* --- the list part --- *)
 
@@ -126,3 +126,23 @@ Theorem C07_push_tree_is_merge :
       /\ (o = pc \/ parents_of (t_objs t') o = [top]).
 Proof. exact push_tree_is_merge. Qed.
 Print Assumptions C07_push_tree_is_merge.
+
+(* ---- where the full statement of C07 is false of the faithful model: `--merged` (known finding
+   F37, replayed on the implementation by corpus/hist-f37-merged-heuristic.json).  From the
+   initial world, by commands: patch m4 sets cells 1 and 2 to 2, patch n5 sets cell 2 back to 1,
+   both are popped, upstream commits an unrelated change; `stg push --merged --all` succeeds,
+   takes n5 for merged (its reverse applies to the tree checked out before the push), makes it an
+   empty patch - its tree is its new parent's - although the three-way merge of its change onto
+   its new parent exists and differs: the change of n5 is lost ---- *)
+Theorem C07_merged_heuristic_refuted :
+  exists w' pc oldp pc' newp t,
+    step f37_lower f37_world f37_push = (w', X0)
+    /\ patch_commit f37_world f37_n5 = Some pc
+    /\ first_parent (w_objs f37_world) pc = Some oldp
+    /\ patch_commit w' f37_n5 = Some pc'
+    /\ first_parent (w_objs w') pc' = Some newp
+    /\ merge3 (tree_of (w_objs f37_world) oldp) (tree_of (w_objs w') newp) (tree_of (w_objs f37_world) pc) = Some t
+    /\ tree_of (w_objs w') pc' <> t
+    /\ tree_of (w_objs w') pc' = tree_of (w_objs w') newp.
+Proof. exact merged_heuristic_refuted. Qed.
+Print Assumptions C07_merged_heuristic_refuted.
